@@ -26,7 +26,9 @@ type Loc struct {
 type EdgeInfo struct {
 	If    *ssa.If
 	Taken bool
-	Cond  ssa.Value // condition after same-block phi resolution for the incoming predecessor
+	Cond  ssa.Value // condition after phi resolution for the path taken
+	// RawCond is the condition as written (after same-block phi resolution only)
+	RawCond ssa.Value
 	Facts []string
 }
 
@@ -187,6 +189,7 @@ func (p *Program) reach(starts []Loc, target InstrPred, cut CutSpec, sensitive b
 
 		if ifi, ok := b.Instrs[len(b.Instrs)-1].(*ssa.If); ok {
 			cond := resolvePhiCond(ifi, cur.pred)
+			rawCond := cond
 
 			var (
 				aKey     string
@@ -208,6 +211,15 @@ func (p *Program) reach(starts []Loc, target InstrPred, cut CutSpec, sensitive b
 					continue
 				}
 
+				if rawCond != cond {
+					// the test as written is still what the code evaluates on this edge: keep its facts
+					// (first), followed by the facts of the condition as resolved on this path
+					raw := p.Facts(rawCond, taken)
+					if !(len(raw) == 1 && (raw[0] == "never" || raw[0] == "always")) {
+						facts = append(append([]string{}, raw...), facts...)
+					}
+				}
+
 				env := cur.env
 
 				if sense != nil {
@@ -226,7 +238,7 @@ func (p *Program) reach(starts []Loc, target InstrPred, cut CutSpec, sensitive b
 					}
 				}
 
-				e := EdgeInfo{If: ifi, Taken: taken, Cond: cond, Facts: facts}
+				e := EdgeInfo{If: ifi, Taken: taken, Cond: cond, RawCond: rawCond, Facts: facts}
 				if cut.Edges != nil && cut.Edges(e) {
 					continue
 				}
